@@ -72,6 +72,10 @@ def scenario(out, shape, sched, fmt=FMT):
     opts = [(b"output", oval), (b"message_format", fmt)]
     if chain:
         opts.append((b"filter_chain", chain))
+    if len(shape) > 4 and shape[4] == "errlog":
+        # every call raises an internal error (message does not fit) with error logging on: each call emits its own error text
+        opts += [(b"error_logging", b"yes"), (b"log_message_max_length", b"255")]
+        opts[1] = (b"message_format", fmt + b"|" + b"z" * 300)
     if big0:
         # thread 0's record is larger than a datagram can be: ITS send() fails (EMSGSIZE) -- the other threads' records must not suffer
         opts += [(b"datasource_message_max_length", b"1048575"), (b"log_message_max_length", b"1048575")]
@@ -84,6 +88,8 @@ def scenario(out, shape, sched, fmt=FMT):
     for t in range(nt):
         for k in range(nc):
             argv = [b"t%dc%d" % (t, k), b"arg-%d-%d" % (t, k)] + ([b"B" * 300000] if big0 and t == 0 else [])
+            if len(shape) > 4 and shape[4] == "nullargv":
+                argv = None if (t + k) % 2 == 0 else []          # NULL vector / vector holding only NULL: cmdline falls back to the path
             ops.append(drv.op_exec("e" if (t + k) % 2 == 0 else "v", b"/bin/t%dc%d" % (t, k), argv, [b"E=%d" % t],
                                    ret=-1, err=2, tno=t, callno=k))
     ops += [drv.op("P"), drv.op_exec("e", b"/bin/lone", [b"lone", b"call"], [], ret=-1, err=2), drv.op("L"), drv.op("G")]
@@ -157,6 +163,16 @@ def run_sched(d, shape, sched, tsan=False):
             raise Failure("call logged although the chain drops it when evaluated alone (%s)" % what, {"records": [l[:120] for l in lines[:4]]}, key="chain")
         return trace, int(Z[0].f[1])
     big0 = len(shape) > 4 and shape[4] == "big0"
+    if len(shape) > 4 and shape[4] == "errlog":
+        # records are cut and accompanied by error texts: every call must produce as many lines as it does undisturbed
+        want_lines = run_sched.expected_lines.get(tuple(shape))
+        if want_lines is None:
+            if not sched:
+                run_sched.expected_lines[tuple(shape)] = len(lines)
+        elif len(lines) != want_lines:
+            raise Failure("%d output lines, the undisturbed run of the same calls gives %d (error texts of one call lost or duplicated) (%s)" % (len(lines), want_lines, what),
+                          {"lines": [l[:100] for l in lines[:8]]}, key="errlines")
+        return trace, int(Z[0].f[1])
     nrec = nt * nc + 1 - (nc if big0 else 0)        # (thread 0's oversized records cannot be delivered)
     if len(lines) != nrec:
         raise Failure("%d records for %d deliverable calls (%s)" % (len(lines), nrec, what), {"records": [l[:120] for l in lines[:8]]}, key="records")
@@ -171,6 +187,8 @@ def run_sched(d, shape, sched, tsan=False):
         t, k = int(m.group(1)), int(m.group(2))
         ktid, ptid = ids.get((t, k), (b"?", b"?"))
         want = [ptid, ktid, None, b"/bin/t%dc%d" % (t, k), b"lg", b"t%dc%d arg-%d-%d" % (t, k, t, k)]
+        if len(shape) > 4 and shape[4] == "nullargv":
+            want[5] = b"/bin/t%dc%d" % (t, k)
         for i, w in enumerate(want):
             if w is not None and f[i] != w:
                 raise Failure("record of call t%dc%d carries a value that is not its own (field %d) (%s)" % (t, k, i, what),
@@ -191,6 +209,7 @@ def run_sched(d, shape, sched, tsan=False):
     return trace, int(Z[0].f[1])
 
 
+run_sched.expected_lines = {}
 _W = {}
 
 
@@ -330,7 +349,7 @@ def main():
     shapes = [(2, 1), (2, 2), (3, 1)] if ctx.quick else [(2, 1), (2, 2), (3, 1), (2, 3), (3, 2), (4, 1), (4, 3)]
     # other outputs and filter chains (every libc call the library makes is a scheduling point as well)
     shapes += [(2, 1, "stdout", "none"), (2, 1, "socket", "pass"), (2, 1, "file", "droplast"), (2, 1, "stderr", "droplast"), (2, 1, "file", "mixed"),
-               (2, 1, "socket", "none", "big0"), (2, 1, "file", "none", "errfmt")]
+               (2, 1, "socket", "none", "big0"), (2, 1, "file", "none", "errfmt"), (2, 1, "file", "none", "errlog"), (2, 2, "file", "none", "nullargv")]
     if not ctx.quick:
         shapes += [(3, 1, "stdout", "pass"), (2, 2, "file", "droplast"), (2, 2, "socket", "none"), (3, 1, "stderr", "none")]
     for shape in shapes:
